@@ -89,7 +89,12 @@ func (s *Snapshot) Aggregate(similar Similarity) *Aggregated {
 		if r.Signature.less(&l.Signature) {
 			return false
 		}
-		return len(r.IDs) > len(l.IDs)
+		if len(r.IDs) != len(l.IDs) {
+			return len(r.IDs) > len(l.IDs)
+		}
+		// Every bucket has at least one goroutine and no goroutine is in two
+		// buckets: the lowest id is a final, deterministic tie-break.
+		return l.IDs[0] < r.IDs[0]
 	})
 	return &Aggregated{
 		Snapshot: s,
